@@ -44,7 +44,13 @@ func cmdConc(args []string) {
 	statsOut := fs.String("stats", "", "stats")
 	par := fs.Int("par", 4, "parallel histories")
 	gated := fs.Bool("gated", false, "deterministic gated schedules instead of perturbed ones")
+	sched := fs.String("sched", "", "file of model behaviours (MC_ConcEmit) to replay, one history each")
 	fs.Parse(args)
+	var recs []*schedRecord
+	if *sched != "" {
+		recs = loadSchedules(*sched)
+		*n = len(recs)
+	}
 
 	type result struct {
 		lines [][]byte
@@ -65,7 +71,9 @@ func cmdConc(args []string) {
 				bs := strings.Split(*backends, ",")
 				be = bs[i%len(bs)]
 			}
-			if *gated && i%3 == 2 {
+			if recs != nil {
+				results[i].lines, results[i].stats = runSched(recs[i], tseed)
+			} else if *gated && i%3 == 2 {
 				results[i].lines, results[i].stats = runBigBatch(tseed, be)
 			} else if *gated {
 				results[i].lines, results[i].stats = runGated(tseed, be)
